@@ -39,6 +39,17 @@ func (fv *FV) addObl(st *State, kind, name, goal, src string, tags []string) {
 	}
 	o := &Obligation{Func: fv.fc.Key, Name: name, Kind: kind, Tags: tags, Hyps: hyps, Goal: goal, Src: src, Expect: "unsat"}
 	fv.obls = append(fv.obls, o)
+	// the skolem constants of this goal mean nothing to later obligations: instantiating
+	// hypotheses at them only bloats those conditions
+	if strings.Contains(goal, "sk_") {
+		kept := st.idx[:0:0]
+		for _, t := range st.idx {
+			if !strings.Contains(t, "sk_") {
+				kept = append(kept, t)
+			}
+		}
+		st.idx = kept
+	}
 }
 
 func (fv *FV) safety(st *State, what, at, goal string) {
